@@ -490,6 +490,8 @@ def explain(view, m, frm=None, to=None, sym=None, pairwise=True):
             for u, v in zip(p[:-1], p[1:]):
                 if (u, v) in m.former:
                     return "former_edge=alive rel=path_reverses_former"
+        if (to, frm) in m.former:
+            return "former_edge=alive rel=pair_is_reversed_former"
         return "former_edge=alive rel=other"
     return "former_edge=none"
 
@@ -564,8 +566,10 @@ def report_pair(run, st, m, query, frm, to, obs, verdict, case, extra=""):
     feats = [ex]
     if ex == "former_edge=none":
         feats.append(path_class(m, frm, to))
-        if obs[0] == "ok":
-            feats.append("served=%s" % ("cache" if obs[3] else "computed"))
+    if ex in ("former_edge=none", "former_edge=alive rel=other") and obs[0] == "ok":
+        # a dead edge record can give the forest the very content (hence hash) of an earlier state,
+        # so under `former_edge=alive` a stale SceneGraph._cache entry may come back for any pair
+        feats.append("served=%s" % ("cache" if obs[3] else "computed"))
     key = "query=%s sym=%s %s%s" % (query, sym, " ".join(feats), extra)
     what = {
         "wrong_matrix": "transform differs from the product of the current edges along the path",
